@@ -29,6 +29,12 @@ CHECKS = {
          "collision behaviour of large families only as: n similar keys give n distinct retrievable entries (10^4 quick, 10^5 thorough per family)"),
  "C14": ("model_checking", "6", "TableHeap.tla: heap of live tables under every derivation (rows / cols / cols[expr] / + / *k / concatenate / _copy / _t) and assignment; after every step ALL live tables are compared with the value-semantics specification (rectangular, column list, scalars, cells), so a derivation that damages its source is seen",
          "roots of 0..3 rows, <= 3-5 live tables, depth 2-3 exhaustive + simulated depth 6-9; cells of columns that may share an in-place assigned array are Unknown; two dtype instantiations"),
+ "C09": ("model_checking", "7", "Optimizer.tla trace specification: solve() calls recorded on real Optimize objects (TLC-enumerated call sequences x generated merit-function families x fault positions) must satisfy the named clauses: normal return => matched (independent re-evaluation), failure + restore_if_fail => iteration-0 knobs and flags",
+         "measurements (tolerances, penalties, ulp distances) come from a harness oracle; TLC decides the clauses on their integer abstractions; 150 problems quick / 1200 thorough"),
+ "C10": ("model_checking", "7", "Optimizer.tla trace specification: every logged row within the closed limits, Jacobian steps bounded by max_step (ppm ratios), disabled knobs bit-identical, temporarily disabled flags active again, twin problems prove a disabled target has no influence, calls accept their documented arguments",
+         "as C09; unit weights exact, other weights 4 ulp / 20 ppm"),
+ "C15": ("model_checking", "7", "Optimizer.tla trace specification: reload(i) restores knobs (ulp) and flags and reproduces the row's penalty and targets; every logged row reproducible by the oracle; step(take_best) ends within tolerance or on the minimum-penalty row; the log stays rectangular after failures",
+         "as C09; all rows of all logs produced by the enumerated call sequences, including failing solves and faults in the user's action"),
  "C07": ("model_checking", "6", "TableIndex.tla (index column + lazily built cache) checked with TLC; every generated transition replayed on a real Table, lookups compared with the spec's Resolve",
          "3-name alphabet, 0..3 rows exhaustive (4 thorough), node identity includes last probed snapshot so lookup/update interleavings stay distinct"),
  "C08": ("model_checking", "6", "RowSel.tla: the selector semantics as pure TLA+ operators; TLC enumerates every (table, selector[, selector]) case with its expected rows and each case is executed on a real Table (rows / rows.rows / indices / mask) under several hash seeds",
